@@ -6,6 +6,14 @@ from pyvc.model import Schema, Leaf, MapT, BidictT, BagT, SeqT, RecT, OptT, LogT
 from pyvc.vals import S, ClassV, PySeq, Fixed
 
 NOT_HANDLED = Marker('not_handled')
+SERVER_REASONS = ['CLIENT_DISCONNECT', 'PING_TIMEOUT', 'SERVER_DISCONNECT', 'TRANSPORT_CLOSE', 'TRANSPORT_ERROR']
+CLIENT_REASONS = ['CLIENT_DISCONNECT', 'SERVER_DISCONNECT', 'TRANSPORT_ERROR']
+
+
+def reason_rec(names):
+    def mk(eng, ctx):
+        return ctx.alloc('rec', {n: S(atom('reason:' + n.lower().replace('_', ' '))) for n in names}, cls='reason')
+    return mk
 
 PACKET = RecT('Packet', {
     'packet_type': Leaf('V'), 'data': Leaf('V'), 'namespace': Leaf('V'), 'id': Leaf('V'),
@@ -36,6 +44,7 @@ def server_world(name='server', server_cls=('server', 'Server'), manager_cls=('m
     }, links={'manager': 'manager', 'eio': 'eio'}, consts={
         'not_handled': lambda eng, ctx: S(atom(NOT_HANDLED)),
         'packet_class': lambda eng, ctx: ClassV('socketio.packet.Packet'),
+        'reason': reason_rec(SERVER_REASONS),
         'logger': lambda eng, ctx: S(atom(Marker('logger'))),
     })
     w.obj('manager', manager_cls, fields={
@@ -46,7 +55,9 @@ def server_world(name='server', server_cls=('server', 'Server'), manager_cls=('m
     }, links={'server': 'server'}, consts={
         'logger': lambda eng, ctx: S(atom(Marker('logger'))),
     })
-    w.obj('eio', ('$ext', 'EioServer'))
+    w.obj('eio', ('$ext', 'EioServer'), fields={
+        'sessions': MapT(MapT(Leaf('V'))),      # engine.io socket sessions: transport id -> {namespace: user session}
+    })
     w.obj('g', ('$ext', 'Ghost'), fields=dict(GHOST))
     return w
 
